@@ -8,6 +8,7 @@ import (
 	"os"
 	"runtime/debug"
 	"strconv"
+	"strings"
 	"testing"
 
 	"pgregory.net/rapid"
@@ -104,6 +105,11 @@ func judge(t interface {
 		return
 	}
 	rec := stat.For(id)
+	if strings.HasPrefix(f.Sig, "harness") {
+		// the machinery, not the library, is at fault: fail without recording a violation (driver: exit 2)
+		t.Fatalf("HARNESS PROBLEM in %s (%s): %s", id, name, f.Msg)
+		return
+	}
 	if rec.IsKnown(f.Sig) {
 		rec.Class("excluded_known")
 		return
